@@ -357,9 +357,11 @@ func (w *World) initialValue(lv *T) (*T, bool) {
 	}
 	if w.globalInit == nil {
 		w.globalInit = map[string]*T{}
+		w.globalInitLV = map[string]*T{}
 		w.globalRO = map[string]bool{}
 		w.initMaps = map[string][]mapEntry{}
 		w.mapGlobal = map[string][]string{}
+		var pendingHeaps []map[string]*T
 		for _, pk := range []*ssa.Package{w.SLib, w.SCmd} {
 			initFn := pk.Func("init")
 			if initFn == nil || len(initFn.Blocks) == 0 {
@@ -383,6 +385,7 @@ func (w *World) initialValue(lv *T) (*T, bool) {
 			}
 			for k, v := range work[0].Heap {
 				w.globalInit[k] = v
+				w.globalInitLV[k] = work[0].HeapLV[k]
 				if v.Op == "makemap" && strings.HasPrefix(k, "global:") {
 					w.mapGlobal[v.Key()] = append(w.mapGlobal[v.Key()], strings.TrimPrefix(k, "global:"))
 				}
@@ -392,6 +395,7 @@ func (w *World) initialValue(lv *T) (*T, bool) {
 					w.initMaps[ev.LV.Key()] = append(w.initMaps[ev.LV.Key()], mapEntry{ev.Args[0], ev.Val})
 				}
 			}
+			pendingHeaps = append(pendingHeaps, work[0].Heap)
 		}
 		// globals some function other than an initialiser stores to are not tables
 		written := map[string]bool{}
@@ -413,6 +417,35 @@ func (w *World) initialValue(lv *T) (*T, bool) {
 				if g, ok := mem.(*ssa.Global); ok && !written[g.Name()] && !ast.IsExported(name) {
 					w.globalRO[g.Name()] = true
 				}
+			}
+		}
+		// a package variable initialised by calling a function of the module without arguments
+		// (var t = func() map[K]V { ... }()): the map that function builds on its single path
+		for _, heap := range pendingHeaps {
+			for k, v := range heap {
+				if !strings.HasPrefix(k, "global:") || v.Op != "call" || len(v.A) != 0 {
+					continue
+				}
+				g := w.funcByKey(v.S)
+				if g == nil || len(g.Blocks) == 0 || !w.inPkgs(g) {
+					continue
+				}
+				w.globalInit[k] = v // (placeholder while the builder itself is explored)
+				gx := &Explorer{W: w, Fn: g, MaxPaths: 8, NoInline: true}
+				gps, err := gx.Run()
+				if err != nil || len(gps) != 1 || gps[0].End != "ret" || len(gps[0].Ret) != 1 || gps[0].Ret[0].Op != "makemap" {
+					continue
+				}
+				built := gps[0].Ret[0]
+				w.builtMaps++
+				nm := &T{Op: "makemap", C: 1000000 + int64(w.builtMaps), Ty: built.Ty}
+				for _, ev := range gps[0].Events {
+					if ev.Kind == "mapupdate" && ev.LV != nil && ev.LV.Key() == built.Key() {
+						w.initMaps[nm.Key()] = append(w.initMaps[nm.Key()], mapEntry{ev.Args[0], ev.Val})
+					}
+				}
+				w.globalInit[k] = nm
+				w.mapGlobal[nm.Key()] = append(w.mapGlobal[nm.Key()], strings.TrimPrefix(k, "global:"))
 			}
 		}
 	}
